@@ -113,10 +113,12 @@ type StructDef struct {
 
 // Universe is a set of struct definitions plus the root type.
 type Universe struct {
-	Structs []StructDef `json:"structs"`
-	Root    *Type       `json:"root"`
-	Extra   []*Type     `json:"extra,omitempty"` // further root types, exposed as methods M0, M1, ... of the service
-	ArgID   int16       `json:"arg_id,omitempty"` // id of the argument of method Call (0: the usual 1)
+	Structs  []StructDef `json:"structs"`
+	Root     *Type       `json:"root"`
+	Extra    []*Type     `json:"extra,omitempty"`    // further root types, exposed as methods M0, M1, ... of the service
+	ArgID    int16       `json:"arg_id,omitempty"`   // id of the argument of method Call (0: the usual 1)
+	Split    bool        `json:"split,omitempty"`    // every declaration lives in an included file (inc.thrift); main.thrift holds the service only and names the types as inc.X
+	Typedefs bool        `json:"typedefs,omitempty"` // fields with an odd id name their scalar types through typedefs (typedef binary TBinary, ...)
 }
 
 func (u *Universe) Struct(name string) *StructDef {
